@@ -255,6 +255,11 @@ MIRSYM("dot_product_preprocess", ["C05", "C07"],
        "databases with 0, 1 and 3 items (ids 1, 5, u32::MAX) in index 7 next to indexes 6 and 8; squared norms = symbolic f32 of any bit pattern (uninterpreted dot product); the iterator closure = a cursor over the index's item keys",
        _lazy("e2_dot"), site="DotProduct::preprocess")
 
+MIRSYM("two_means_bounded_sampling", ["C20"],
+       "two_means / two_means_binary_quantized with cosine = true on data whose sampled norms are all NaN or <= 0 (all-zero vectors, NaN vectors): the sampling loop returns Ok after a bounded number of samples (every iteration, including the skipped ones, consumes the loop counter), never panics",
+       "one symbolic path per function and class: every sampled norm NaN, or every vector with the same symbolic norm n0 in (-inf, 0]; distances arbitrary f32; bound = 8000 executed MIR blocks (the code needs < 3900 for its 200 samples); datasets with positive norms fork 3 ways per iteration and are outside this obligation",
+       _lazy("e2_means"), site="distance::two_means")
+
 MIRSYM("distance_kernels_structure", ["C11"],
        "for every length n the value computed by spaces::simple::{dot_product, euclidean_distance} on each dispatch path (AVX+FMA, SSE, scalar) equals sum_i a_i*b_i resp. sum_i (a_i-b_i)^2 modulo re-association of the sum: every index used exactly once, right pairing, right remainder, no out-of-bounds read",
        "n in 1..=40 and around every multiple of 16/32 up to 300 (thorough: all n in 1..=300); element values symbolic; float + as real addition, - and * uninterpreted (multiplication commutative); CPU features symbolic",
